@@ -1043,6 +1043,13 @@ class Interp:
     def binop(self, op, a, b, inplace=False):
         if isinstance(a, SObj) or isinstance(b, SObj):
             return self.obj_binop(op, a, b, inplace)
+        if isinstance(op, ast.MatMult):
+            from .arrays import SArr as _SArr
+            if isinstance(a, _SArr) or isinstance(b, _SArr):
+                if getattr(a, "ndim", 1) == 0 or getattr(b, "ndim", 1) == 0 or not all(isinstance(x, (_SArr, np.ndarray, list, tuple)) for x in (a, b)):
+                    raise RaiseSig(ValueError("matmul: scalar operand"))
+                from .models_numpy import m_dot       # for operands of rank 1 and 2, a @ b is np.dot(a, b)
+                return m_dot(self, a, b)
         if isinstance(op, ast.Mod) and isinstance(a, str):
             if contains_sym(b):
                 return SymStr("<symbolic message>")
@@ -1644,15 +1651,29 @@ class MapLoop(LoopSpec):
         if s.orelse:
             raise Unsupported("for-else under the map rule")
         if isinstance(it, SRange):
-            if it.step != 1:
-                raise Unsupported("map rule over a stepped symbolic range")
-            if not interp.truth(it.stop > it.start):
+            if not isinstance(it.step, int) or it.step != 1:
+                # range(start, stop, step), step > 0: the values start + step*k for 0 <= k < ceil((stop-start)/step);
+                # the loop variable recorded for coverage obligations is the ordinal k
+                if not interp.truth(it.step > 0):
+                    raise Unsupported("map rule over a symbolic range whose step is not known to be positive")
+                if not interp.truth(it.stop > it.start):
+                    return
+                q_, r_ = c.divmod(it.stop - it.start, it.step)
+                cnt = ite(r_ == 0, q_, q_ + 1)
+                kk = c.int("k_" + "_".join(sorted(tnames)))
+                c.assume(core.And(kk >= 0, kk < cnt))
+                v = it.start + it.step * kk
+                c.loop_vars.append((ast.unparse(s.target), kk, 0, cnt))
+                nvars = 1
+                interp.assign(s.target, v, fr)
+            elif not interp.truth(it.stop > it.start):
                 return      # empty range: no iteration
-            v = c.int("i_" + "_".join(sorted(tnames)))
-            c.assume(core.And(v >= it.start, v < it.stop))
-            c.loop_vars.append((ast.unparse(s.target), v, it.start, it.stop))
-            nvars = 1
-            interp.assign(s.target, v, fr)
+            else:
+                v = c.int("i_" + "_".join(sorted(tnames)))
+                c.assume(core.And(v >= it.start, v < it.stop))
+                c.loop_vars.append((ast.unparse(s.target), v, it.start, it.stop))
+                nvars = 1
+                interp.assign(s.target, v, fr)
         elif isinstance(it, SNdIndex):
             if not interp.truth(core.And(*[d > 0 for d in it.dims])):
                 return
